@@ -145,9 +145,10 @@ func (h *headServer) ServeHTTP(w http.ResponseWriter, r *http.Request) {
 
 func TestCheck(t *testing.T) {
 	r := vp.New("C03", "exploration",
-		"publisher side: every root of a 10-CID alphabet (v0, v1 x 3 codecs x 3 hash functions) x 4 topics (none, ascii, unicode, 256 bytes) x key types: the real Publisher's /head answer is validated by the reference. Client side: for each of a corpus of valid encoded heads (key types x topics) served verbatim to the real Syncer.GetHead (libp2p-HTTP discovery and plain HTTP): every single-byte substitution, every truncation, and field-level alterations (CID replaced, topic added/removed/changed, key of another identity of the same and another type, signature of another head, key+signature swapped between two valid heads, re-signed by another identity, empty key, empty signature); every alteration class also through Subscriber.SyncAdChain. Non-trivial: every altered head. Distinct = distinct (head, alteration).",
+		"publisher side: every root of a 10-CID alphabet (v0, v1 x 3 codecs x 3 hash functions) x 4 topics (none, ascii, unicode, 256 bytes) x key types: the real Publisher's /head answer is validated by the reference. Client side: for each of a corpus of valid encoded heads (key types x topics) served verbatim to the real Syncer.GetHead (libp2p-HTTP discovery and plain HTTP): every single-byte substitution, every truncation, and field-level alterations (CID replaced, topic added/removed/changed, key of another identity of the same and another type, signature of another head, key+signature swapped between two valid heads, re-signed by another identity, empty key, empty signature); every field-level alteration served cold (fresh Syncer) and after each of 5 histories of valid heads on a reused Syncer ([valid], [other root], [valid, other], [other, valid], [valid, valid]), followed by both valid heads again; every byte-level alteration right after the valid head on a reused Syncer (every 8th also cold); every alteration class also through Subscriber.SyncAdChain, cold and after a healthy sync with a head query (altered head derived from the head served before, and from the current one). Non-trivial: every altered head. Distinct = distinct (head, alteration).",
 		"reference validator (generic DAG-JSON decode + libp2p crypto) is the oracle; an altered encoding is required to be rejected only when the reference rejects it (byte changes that alter no value are not alterations)",
 		"announce-triggered syncs do not query the head and are out of this property's reach",
+		"ECDSA signatures are randomised by the signer (libp2p/crypto), so the encoded ECDSA head, and with it the number of byte positions enumerated, varies by a few bytes between runs; every other fixture is deterministic",
 	)
 	defer func() {
 		if err := r.Finish(); err != nil {
@@ -222,6 +223,13 @@ type alteration struct {
 }
 
 func fieldAlterations(kt string, topic string, root cid.Cid) (valid []byte, expected *fixture.Identity, alts []alteration) {
+	valid, _, expected, alts = fieldAlterations2(kt, topic, root, fixture.Cid("another-root", cid.DagJSON))
+	return
+}
+
+// fieldAlterations2 also returns the valid head of the other root (same
+// publisher, same topic), for histories of several valid heads.
+func fieldAlterations2(kt string, topic string, root, otherRoot cid.Cid) (valid, validOther []byte, expected *fixture.Identity, alts []alteration) {
 	me := fixture.Key(kt, 0)
 	same := fixture.Key(kt, 1)
 	otherType := "ed25519"
@@ -245,8 +253,8 @@ func fieldAlterations(kt string, topic string, root cid.Cid) (valid []byte, expe
 	}
 	good := mk(root, topic, me)
 	valid = enc(good)
-	otherRoot := fixture.Cid("another-root", cid.DagJSON)
 	goodOtherRoot := mk(otherRoot, topic, me)
+	validOther = enc(goodOtherRoot)
 	clone := func(sh *head.SignedHead) *head.SignedHead { c := *sh; return &c }
 	add := func(name string, sh *head.SignedHead) { alts = append(alts, alteration{name, enc(sh)}) }
 
@@ -298,12 +306,13 @@ func fieldAlterations(kt string, topic string, root cid.Cid) (valid []byte, expe
 	a = clone(good)
 	a.Sig = a.Sig[:len(a.Sig)-1]
 	add("signature-truncated", a)
-	return valid, me, alts
+	return valid, validOther, me, alts
 }
 
 func clientSide(t *testing.T, r *vp.Recorder, kt, topic string, ti int, disc, thorough bool) {
 	root := fixture.Cid("the-root", cid.DagJSON)
-	valid, me, alts := fieldAlterations(kt, topic, root)
+	otherRoot := fixture.Cid("another-root", cid.DagJSON)
+	valid, validOther, me, alts := fieldAlterations2(kt, topic, root, otherRoot)
 	base := fmt.Sprintf("client|disc=%v|%s|topic%d", disc, kt, ti)
 
 	n := memnet.New()
@@ -315,50 +324,96 @@ func clientSide(t *testing.T, r *vp.Recorder, kt, topic string, ti int, disc, th
 	st := syncfx.NewStore()
 	sy := ipnisync.NewSync(st.LinkSystem(), nil)
 	defer sy.Close()
-	syncer, err := sy.NewSyncer(peer.AddrInfo{ID: me.ID, Addrs: []multiaddr.Multiaddr{multiaddr.StringCast("/dns4/pub.test/tcp/80/http")}})
-	if err != nil {
-		t.Fatalf("NewSyncer: %v", err)
+	newSyncer := func() *ipnisync.Syncer {
+		syncer, err := sy.NewSyncer(peer.AddrInfo{ID: me.ID, Addrs: []multiaddr.Multiaddr{multiaddr.StringCast("/dns4/pub.test/tcp/80/http")}})
+		if err != nil {
+			t.Fatalf("NewSyncer: %v", err)
+		}
+		return syncer
 	}
 	ctx := context.Background()
 
-	try := func(key, class string, body []byte, mustAccept bool) {
-		if !r.Mine(key) {
-			return
-		}
-		r.Eval(key, !mustAccept)
+	// serve one body to a syncer and judge the answer by the reference
+	serve := func(syncer *ipnisync.Syncer, key, class, when string, body []byte) {
 		hs.body = body
 		var got cid.Cid
 		var gerr error
 		if pn, pm := vp.Guard(func() { got, gerr = syncer.GetHead(ctx) }); pn {
-			r.Violation("client:panic:"+class, key, firstLine(pm), nil)
+			r.Violation("client:panic:"+class, key, when+": "+firstLine(pm), nil)
 			return
 		}
 		rc, rsigner, rok, why := refValidate(body, me.ID)
 		switch {
-		case mustAccept:
-			if gerr != nil || !got.Equals(root) {
-				r.Violation("client:valid-head-rejected:"+kt, key, fmt.Sprintf("GetHead on an untouched valid head: %s, %v", got, gerr), nil)
-				return
-			}
-			r.Outcome("valid-accepted")
+		case rok && (gerr != nil || !got.Equals(rc)):
+			r.Violation("client:valid-head-rejected:"+kt, key, fmt.Sprintf("%s: GetHead on a head that the reference accepts (cid %s): %s, %v", when, rc, got, gerr), nil)
+		case rok:
+			r.Outcome("accepted-as-reference")
 		case gerr == nil:
-			if !rok || !rc.Equals(got) {
-				r.Outcome("altered-accepted")
-				r.Violation("client:accepted-altered-head:"+class, key, fmt.Sprintf("GetHead returned %s for an altered head that the reference rejects (%s; reference cid %s signer %s)", got, why, rc, rsigner), nil)
-				return
-			}
-			r.Outcome("altered-but-semantically-valid")
+			r.Outcome("altered-accepted")
+			r.Violation("client:accepted-altered-head:"+class, key, fmt.Sprintf("%s: GetHead returned %s for an altered head that the reference rejects (%s; reference cid %s signer %s)", when, got, why, rc, rsigner), nil)
 		default:
 			r.Outcome("rejected")
 		}
 	}
-	try(base+"|valid", "valid", valid, true)
+	// histories of valid heads that a reused syncer has seen before the altered one
+	histories := []struct {
+		name  string
+		heads [][]byte
+	}{
+		{"after-valid", [][]byte{valid}},
+		{"after-valid-of-other-root", [][]byte{validOther}},
+		{"after-valid,other", [][]byte{valid, validOther}},
+		{"after-other,valid", [][]byte{validOther, valid}},
+		{"after-valid,valid", [][]byte{valid, valid}},
+	}
+	// try: the altered body cold (fresh syncer) and after every history (fresh
+	// syncer per history), followed by both valid heads again: a rejected head
+	// must leave nothing behind either
+	tryAll := func(key, class string, body []byte) {
+		if !r.Mine(key) {
+			return
+		}
+		r.Eval(key, true)
+		serve(newSyncer(), key, class, "cold", body)
+		for _, h := range histories {
+			r.Eval(key+"|"+h.name, true)
+			sc := newSyncer()
+			for _, hb := range h.heads {
+				serve(sc, key, "valid", h.name+" (history)", hb)
+			}
+			serve(sc, key, class, h.name, body)
+			serve(sc, key, "valid", h.name+", then valid again", valid)
+			serve(sc, key, "valid", h.name+", then the other valid head again", validOther)
+		}
+	}
+	// tryWarm: the cheap form for the large byte-level families: on one reused
+	// syncer, the valid head and then the altered one (every key carries its own
+	// history, whatever shard it runs in); every 8th also cold
+	shared := newSyncer()
+	nWarm := 0
+	tryWarm := func(key, class string, body []byte) {
+		if !r.Mine(key) {
+			return
+		}
+		r.Eval(key, true)
+		serve(shared, key, "valid", "before "+class, valid)
+		serve(shared, key, class, "after-valid", body)
+		if nWarm%8 == 0 {
+			serve(newSyncer(), key, class, "cold", body)
+		}
+		nWarm++
+	}
+	if r.Mine(base + "|valid") {
+		r.Eval(base+"|valid", false)
+		serve(newSyncer(), base+"|valid", "valid", "cold", valid)
+		serve(newSyncer(), base+"|valid", "valid", "cold", validOther)
+	}
 	r.Sample(map[string]any{"key_type": kt, "topic": topic, "discovery": disc, "valid_head": string(valid)})
 	for _, a := range alts {
-		try(base+"|field|"+a.name, "field:"+a.name, a.body, false)
+		tryAll(base+"|field|"+a.name, "field:"+a.name, a.body)
 	}
 	for cut := 0; cut < len(valid); cut++ {
-		try(fmt.Sprintf("%s|trunc|%d", base, cut), "truncation", valid[:cut], false)
+		tryWarm(fmt.Sprintf("%s|trunc|%d", base, cut), "truncation", valid[:cut])
 	}
 	stride := 1
 	if !thorough && (disc || ti == 1) {
@@ -371,93 +426,124 @@ func clientSide(t *testing.T, r *vp.Recorder, kt, topic string, ti int, disc, th
 			}
 			m := append([]byte(nil), valid...)
 			m[i] = byte(v)
-			try(fmt.Sprintf("%s|sub|%d|%d", base, i, v), "byte-substitution", m, false)
+			tryWarm(fmt.Sprintf("%s|sub|%d|%d", base, i, v), "byte-substitution", m)
 		}
 	}
 }
 
 func throughSubscriber(t *testing.T, r *vp.Recorder, kt string) {
-	for _, disc := range []bool{true, false} {
-		for ti, topic := range []string{"", "/indexer/ingest/mainnet"} {
-			base := fmt.Sprintf("sub|disc=%v|%s|topic%d", disc, kt, ti)
-			var names []string
-			{
-				_, _, alts := fieldAlterations(kt, topic, fixture.Cid("x", cid.DagJSON))
-				for _, a := range alts {
-					names = append(names, a.name)
+	// modes: "cold" = the subscriber never queried this publisher's head before
+	// (the set-up sync names its head explicitly); "warm-replay" = a healthy sync
+	// with a head query came first, and the altered head is derived from the
+	// head that was served then (so that key and signature are ones the syncer
+	// has already verified); "warm-current" = same history, altered head derived
+	// from the current valid head, the other head being the one served before
+	for _, mode := range []string{"cold", "warm-replay", "warm-current"} {
+		for _, disc := range []bool{true, false} {
+			for ti, topic := range []string{"", "/indexer/ingest/mainnet"} {
+				base := fmt.Sprintf("sub|%s|disc=%v|%s|topic%d", mode, disc, kt, ti)
+				var names []string
+				{
+					_, _, alts := fieldAlterations(kt, topic, fixture.Cid("x", cid.DagJSON))
+					for _, a := range alts {
+						names = append(names, a.name)
+					}
 				}
-			}
-			for ai, name := range names {
-				key := base + "|" + name
-				if !r.Mine(key) {
-					continue
-				}
-				r.Eval(key, true)
-				leak := syncfx.Bubble(t, func(t *testing.T) {
-					w := syncfx.NewWorld()
-					defer w.Close()
-					id := fixture.Key(kt, 0)
-					p := w.AddPub(id, disc, ipnisync.WithHeadTopic(topic))
-					ch := syncfx.BuildAdChain(p.Src, id, 2, syncfx.DefaultProto, "c03")
-					p.Publisher.SetRoot(ch.Head())
-					_, _, alts := fieldAlterations(kt, topic, ch.Head())
-					body := alts[ai].body
-					if _, _, rok, _ := refValidate(body, id.ID); rok {
-						r.Count("alterations_semantically_valid", 1)
-						return
+				for ai, name := range names {
+					key := base + "|" + name
+					if !r.Mine(key) {
+						continue
 					}
-					p.Script = func(rq *syncfx.Req) *syncfx.Fault {
-						if rq.Kind == "head" {
-							return &syncfx.Fault{Kind: "body", Body: body, Label: name}
-						}
-						return nil
-					}
-					sub := w.NewSubscriber()
-					// a first healthy sync of the older ad fixes a latest-synced value
-					if _, err := sub.SyncAdChain(context.Background(), p.AddrInfo(), dagsync.WithHeadAdCid(ch.Cids[0])); err != nil {
-						r.Violation("subscriber:setup", key, err.Error(), nil)
-						return
-					}
-					if err := sub.SetLatestSync(id.ID, ch.Cids[0]); err != nil {
-						panic(err)
-					}
-					lst := w.Listen()
-					defer lst.Stop()
-					p.ResetLog()
-					w.ResetHooks()
-					var got cid.Cid
-					var err error
-					if pn, pm := vp.Guard(func() { got, err = sub.SyncAdChain(context.Background(), p.AddrInfo()); synctest.Wait() }); pn {
-						r.Violation("subscriber:panic", key, firstLine(pm), nil)
-						return
-					}
-					if err == nil {
-						r.Violation("subscriber:sync-accepted-altered-head:"+name, key, fmt.Sprintf("SyncAdChain returned %s with a head altered by %s", got, name), nil)
-						return
-					}
-					for _, rq := range p.Requests() {
-						if rq.Kind == "block" {
-							r.Violation("subscriber:request-after-rejected-head:"+name, key, "a block was requested after the head was rejected", nil)
+					r.Eval(key, true)
+					leak := syncfx.Bubble(t, func(t *testing.T) {
+						w := syncfx.NewWorld()
+						defer w.Close()
+						id := fixture.Key(kt, 0)
+						p := w.AddPub(id, disc, ipnisync.WithHeadTopic(topic))
+						ch := syncfx.BuildAdChain(p.Src, id, 3, syncfx.DefaultProto, "c03")
+						sub := w.NewSubscriber()
+						// a first healthy sync of the oldest ad fixes a latest-synced value
+						if _, err := sub.SyncAdChain(context.Background(), p.AddrInfo(), dagsync.WithHeadAdCid(ch.Cids[0])); err != nil {
+							r.Violation("subscriber:setup", key, err.Error(), nil)
 							return
 						}
+						if err := sub.SetLatestSync(id.ID, ch.Cids[0]); err != nil {
+							panic(err)
+						}
+						baseline := ch.Cids[0]
+						var body []byte
+						switch mode {
+						case "cold":
+							p.Publisher.SetRoot(ch.Cids[2])
+							_, _, _, alts := fieldAlterations2(kt, topic, ch.Cids[2], fixture.Cid("another-root", cid.DagJSON))
+							body = alts[ai].body
+						default:
+							// healthy sync with a head query: the syncer has verified the head of Cids[1]
+							p.Publisher.SetRoot(ch.Cids[1])
+							got, err := sub.SyncAdChain(context.Background(), p.AddrInfo())
+							synctest.Wait()
+							if err != nil || !got.Equals(ch.Cids[1]) {
+								r.Violation("subscriber:setup", key, fmt.Sprintf("healthy sync with head query: %s, %v", got, err), nil)
+								return
+							}
+							baseline = ch.Cids[1]
+							p.Publisher.SetRoot(ch.Cids[2])
+							if mode == "warm-replay" {
+								_, _, _, alts := fieldAlterations2(kt, topic, ch.Cids[1], ch.Cids[2])
+								body = alts[ai].body
+							} else {
+								_, _, _, alts := fieldAlterations2(kt, topic, ch.Cids[2], ch.Cids[1])
+								body = alts[ai].body
+							}
+						}
+						if _, _, rok, _ := refValidate(body, id.ID); rok {
+							r.Count("alterations_semantically_valid", 1)
+							return
+						}
+						p.Script = func(rq *syncfx.Req) *syncfx.Fault {
+							if rq.Kind == "head" {
+								return &syncfx.Fault{Kind: "body", Body: body, Label: name}
+							}
+							return nil
+						}
+						lst := w.Listen()
+						defer lst.Stop()
+						p.ResetLog()
+						w.ResetHooks()
+						var got cid.Cid
+						var err error
+						if pn, pm := vp.Guard(func() { got, err = sub.SyncAdChain(context.Background(), p.AddrInfo()); synctest.Wait() }); pn {
+							r.Violation("subscriber:panic", key, firstLine(pm), nil)
+							return
+						}
+						if err == nil {
+							r.Violation("subscriber:sync-accepted-altered-head:"+name, key, fmt.Sprintf("%s: SyncAdChain returned %s with a head altered by %s", mode, got, name), nil)
+							return
+						}
+						for _, rq := range p.Requests() {
+							if rq.Kind == "block" {
+								r.Violation("subscriber:request-after-rejected-head:"+name, key, mode+": a block was requested after the head was rejected", nil)
+								return
+							}
+						}
+						if len(w.HookLog()) != 0 {
+							r.Violation("subscriber:hook-after-rejected-head:"+name, key, mode, nil)
+							return
+						}
+						if l := sub.GetLatestSync(id.ID); l == nil || !l.(cidlink.Link).Cid.Equals(baseline) {
+							r.Violation("subscriber:latest-changed-after-rejected-head:"+name, key, fmt.Sprint(mode, " ", l), nil)
+							return
+						}
+						if evs := lst.Poll(); len(evs) != 0 {
+							r.Violation("subscriber:event-after-rejected-head:"+name, key, fmt.Sprintf("%s %+v", mode, evs[0]), nil)
+							return
+						}
+						r.Outcome("subscriber-rejected-" + mode)
+					})
+					if leak != "" {
+						r.Count("bubble_leaks", 1)
+						r.Note("goroutines left in bubble for %s: %s", key, firstLine(leak))
 					}
-					if len(w.HookLog()) != 0 {
-						r.Violation("subscriber:hook-after-rejected-head:"+name, key, "", nil)
-						return
-					}
-					if l := sub.GetLatestSync(id.ID); l == nil || !l.(cidlink.Link).Cid.Equals(ch.Cids[0]) {
-						r.Violation("subscriber:latest-changed-after-rejected-head:"+name, key, fmt.Sprint(l), nil)
-						return
-					}
-					if evs := lst.Poll(); len(evs) != 0 {
-						r.Violation("subscriber:event-after-rejected-head:"+name, key, fmt.Sprintf("%+v", evs[0]), nil)
-						return
-					}
-					r.Outcome("subscriber-rejected")
-				})
-				if leak != "" {
-					r.Count("bubble_leaks", 1)
-					r.Note("goroutines left in bubble for %s: %s", key, firstLine(leak))
 				}
 			}
 		}
